@@ -55,6 +55,72 @@ theorem map_some_inj {α} : ∀ (xs ys : List α), xs.map some = ys.map some →
   have := congrArg (List.filterMap id) h
   simpa [List.filterMap_map] using this
 
+/-- **fuel monotonicity**: a term found with some fuel is found, unchanged, with more -/
+theorem termOf_mono (S : Spec) (env : Env) : ∀ fuel : Nat,
+    (∀ v t, termOfVar S env fuel v = some t → termOfVar S env (fuel + 1) v = some t) ∧
+    (∀ as ts, termsOf S env fuel as = some ts → termsOf S env (fuel + 1) as = some ts) := by
+  intro fuel
+  induction fuel with
+  | zero =>
+    refine ⟨by intro v t h; simp [termOfVar] at h, ?_⟩
+    intro as
+    induction as with
+    | nil => intro ts h; simp [termsOf] at h ⊢; exact h
+    | cons a as ih =>
+      intro ts h
+      simp only [termsOf] at h ⊢
+      cases a with
+      | var v => simp [termOfAtom, termOfVar] at h
+      | const n =>
+        simp only [termOfAtom] at h ⊢
+        cases hr : termsOf S env 0 as with
+        | none => simp [hr] at h
+        | some rs => simp only [hr] at h; rw [ih rs hr]; exact h
+  | succ fuel ih =>
+    have hV : ∀ v t, termOfVar S env (fuel + 1) v = some t → termOfVar S env (fuel + 1 + 1) v = some t := by
+      intro v t h
+      simp only [termOfVar] at h ⊢
+      cases hl : env.lookup v with
+      | some t0 => simp only [hl] at h ⊢; exact h
+      | none =>
+        simp only [hl] at h ⊢
+        cases hs : S.src.idxOf? v with
+        | some i => simp only [hs] at h ⊢; exact h
+        | none =>
+          simp only [hs] at h ⊢
+          cases hp : S.producer? v with
+          | none => simp [hp] at h
+          | some u =>
+            simp only [hp] at h ⊢
+            split at h
+            · simp at h
+            · rename_i hne
+              simp only [hne, Bool.false_eq_true, if_false]
+              cases hr : termsOf S env fuel u.inp with
+              | none => simp [hr] at h
+              | some rs =>
+                rw [ih.2 u.inp rs hr]
+                simpa [hr] using h
+    refine ⟨hV, ?_⟩
+    intro as
+    induction as with
+    | nil => intro ts h; simp [termsOf] at h ⊢; exact h
+    | cons a as iha =>
+      intro ts h
+      simp only [termsOf] at h ⊢
+      cases ha : termOfAtom S env (fuel + 1) a with
+      | none => simp [ha] at h
+      | some t =>
+        cases hr : termsOf S env (fuel + 1) as with
+        | none => simp [ha, hr] at h
+        | some rs =>
+          simp only [ha, hr] at h
+          have ha' : termOfAtom S env (fuel + 1 + 1) a = some t := by
+            cases a with
+            | const n => simpa [termOfAtom] using ha
+            | var v => simp only [termOfAtom] at ha ⊢; exact hV v t ha
+          rw [ha', iha rs hr]; exact h
+
 theorem instrOk_of_mem (S : Spec) (h : realOk S = true) (u : UInstr) (hu : u ∈ S.instrs) : instrOk S u = true := by
   simp only [realOk, Bool.and_eq_true, List.all_eq_true] at h
   exact h.2 u hu
@@ -97,23 +163,35 @@ theorem not_loadOut_of_pure (S : Spec) (hn : namesOk S = true) (u : UInstr) (o :
   have := hn.2 o h
   simp [hp, he] at this
 
-theorem tmA_pure (S : Spec) (hok : realOk S = true) (u : UInstr) (hu : u ∈ S.instrs) (he : u.isEffect = false)
-    (o : String) (ho : u.out = some o) :
-    ∃ ts t, termsOf S (opaqueEnv S) (fuelOf S) u.inp = some ts ∧ pureTm u ts = some t ∧ tmA S (.var o) = some t := by
-  have hi := instrOk_of_mem S hok u hu
-  simp only [instrOk, he, ho, Bool.false_eq_true, if_false, Bool.and_eq_true, Option.isSome_iff_exists,
-    beq_iff_eq] at hi
-  obtain ⟨⟨⟨⟨⟨ts, hts⟩, _⟩, _⟩, _⟩, _, ⟨t, ht⟩, heq⟩ := hi
-  rw [ht, hts] at heq
-  simp only [Option.bind_some] at heq
-  exact ⟨ts, t, hts, heq.symm, by simpa [tmA, termOfAtom] using ht⟩
-
 theorem producer_of_mem (S : Spec) (hok : realOk S = true) (u : UInstr) (hu : u ∈ S.instrs) (o : String)
     (ho : u.out = some o) : S.producer? o = some u ∧ o ∉ S.src := by
   have hi := instrOk_of_mem S hok u hu
   simp only [instrOk, ho, Bool.and_eq_true, decide_eq_true_eq, Bool.not_eq_true', List.contains_eq_mem,
     decide_eq_false_iff_not] at hi
   exact ⟨hi.1.2.2, hi.1.2.1⟩
+
+/-- the term of the result of an instruction that is not a memory/storage operation is its operation applied to the terms of its
+    operands (one unfolding of `termOfVar`, and fuel monotonicity for the operands) -/
+theorem tmA_pure (S : Spec) (hok : realOk S = true) (u : UInstr) (hu : u ∈ S.instrs) (he : u.isEffect = false)
+    (o : String) (ho : u.out = some o) :
+    ∃ ts t, termsOf S (opaqueEnv S) (fuelOf S) u.inp = some ts ∧ pureTm u ts = some t ∧ tmA S (.var o) = some t := by
+  have hn := realOk_names S hok
+  obtain ⟨hp, hsrc⟩ := producer_of_mem S hok u hu o ho
+  have hi := instrOk_of_mem S hok u hu
+  simp only [instrOk, he, ho, Bool.false_eq_true, if_false, Bool.and_eq_true, Option.isSome_iff_exists] at hi
+  obtain ⟨_, _, ⟨t, ht⟩⟩ := hi
+  have hlk := lookup_opaqueEnv_none S o (not_loadOut_of_pure S hn u o hp he)
+  have hidx : S.src.idxOf? o = none := by
+    simp only [List.idxOf?, List.findIdx?_eq_none_iff, beq_iff_eq]
+    intro x hx; simp only [beq_eq_false_iff_ne, ne_eq]; intro hxo; subst hxo; exact hsrc hx
+  have ht' := ht
+  simp only [fuelOf, termOfVar, hlk, hidx, hp, he, Bool.false_eq_true, if_false] at ht'
+  cases hr : termsOf S (opaqueEnv S) (S.instrs.length + 1) u.inp with
+  | none => simp [hr] at ht'
+  | some ts =>
+    simp only [hr, Option.bind_some] at ht'
+    have hm := (termOf_mono S (opaqueEnv S) (S.instrs.length + 1)).2 u.inp ts hr
+    exact ⟨ts, t, hm, ht', by simpa [tmA, termOfAtom] using ht⟩
 
 theorem tmA_resolve (S : Spec) (hok : realOk S = true) (a : Atom) : tmA S (resolve S a) = tmA S a := by
   cases a with
